@@ -27,6 +27,10 @@ ASSUME = [
     "lacks); one observer per node; 'answered exactly once' is judged only while the nodes are linked by one connection, "
     "after waiting 6x the configured substream open timeout; runs that did not connect or ran on a stalled machine (20 ms "
     "canary timer overshooting) are discarded",
+    "burst scenarios (open-burst-against-held-remote): 300 (tcp, ws) / 64 (quic) open_substream calls are issued within half "
+    "the open timeout against a held remote: yamux hands out at most 256 unacknowledged outbound streams, so the requests "
+    "above that wait for a stream slot and are ended by the outer open timer, the others by the negotiation timer; every "
+    "accepted id must come back as exactly one open failure; a run whose burst took longer to issue is discarded",
     "timeout scenarios: every task litep2p spawned for the remote node is held through its executor (its kernel sockets / "
     "quinn endpoint driver keep accepting bytes and streams, nobody answers multistream-select); substream open timeout 1 s, "
     "the answer may take 7 s, the remote is released after 3 s so that the link itself stays alive; not judged if the link "
@@ -46,7 +50,7 @@ ASSUME = [
 ]
 
 BASE = {"Peers": {"p1"}, "Svc": {0, 1}, "KAs": "<- KADef", "MaxCid": 3, "MaxPerPeer": 3, "MaxOverlap": 2,
-        "MaxOpens": 0, "MaxInb": 0, "MaxFc": 0, "MaxExp": 0, "MaxFull": 0, "MaxDropProto": 0, "PCap": 4096, "Eager": "<- NoEager", "EagerCmd": False,
+        "MaxOpens": 0, "MaxInb": 0, "MaxFc": 0, "MaxExp": 0, "MaxFull": 0, "MaxDropProto": 0, "Phases": False, "PCap": 4096, "Eager": "<- NoEager", "EagerCmd": False,
         "SplitClose": False, "Clog": False, "Bug": "none"}
 MC_INV = ["SPECIFICATION Spec", "INVARIANTS MonOK QuiesceOK IdsBelow NoPanicInScope", "VIEW View", "CHECK_DEADLOCK FALSE"]
 NEG_INV = ["SPECIFICATION Spec", "INVARIANTS MonOK QuiesceOK NoPanicInScope", "VIEW View", "CHECK_DEADLOCK FALSE"]
@@ -94,6 +98,8 @@ def mc_configs(ctx):
             ("full", cfg(MaxCid=2, MaxPerPeer=2, MaxOpens=1, MaxInb=1, MaxFull=1, Eager=E1)),
             # the user drops a protocol; connections are established afterwards, also into a full inbox of the live one
             ("dropq", cfg(MaxCid=2, MaxPerPeer=2, MaxInb=1, MaxFull=1, MaxDropProto=1)),
+            # connection-side open in two phases (stream slot, negotiation); either may time out or be cut by the closure
+            ("phases", cfg(MaxCid=2, MaxPerPeer=2, MaxOpens=2, Phases=True, Eager=E1)),
         ]
     return [
         ("life3", cfg(MaxCid=4, MaxPerPeer=4, MaxOverlap=3, MaxInb=1, Clog=True)),
@@ -109,6 +115,7 @@ def mc_configs(ctx):
         ("full_lazy", cfg(MaxCid=2, MaxPerPeer=2, MaxOpens=2, MaxFull=2)),
         ("dropq", cfg(MaxCid=2, MaxPerPeer=2, MaxOpens=1, MaxInb=1, MaxFull=1, MaxDropProto=1)),
         ("dropq3", cfg(MaxCid=3, MaxPerPeer=3, MaxInb=1, MaxFull=1, MaxDropProto=1)),
+        ("phases", cfg(MaxOpens=2, MaxInb=1, Phases=True, Eager=E1)),
     ]
 
 
@@ -125,6 +132,7 @@ def gen_configs(ctx):
             ("peers2", cfg(Peers=P2, MaxCid=2, MaxPerPeer=2, MaxOpens=1, Eager=E1)),
             ("full", cfg(MaxCid=2, MaxPerPeer=2, MaxOpens=1, MaxInb=1, MaxFull=1, Eager=E1)),
             ("dropq", cfg(MaxCid=2, MaxPerPeer=2, MaxInb=1, MaxFull=1, MaxDropProto=1)),
+            ("phases", cfg(MaxCid=1, MaxPerPeer=1, MaxOpens=2, Phases=True, Eager=E1)),
         ]
     return [
         ("life", cfg(MaxInb=1, Clog=True)),
@@ -136,6 +144,7 @@ def gen_configs(ctx):
         ("full", cfg(MaxCid=2, MaxPerPeer=2, MaxOpens=1, MaxInb=1, MaxFull=1, Eager=E1)),
         ("full_lazy", cfg(MaxCid=1, MaxPerPeer=1, MaxOpens=2, MaxInb=1, MaxFull=2)),
         ("dropq", cfg(MaxCid=2, MaxPerPeer=2, MaxInb=1, MaxFull=1, MaxDropProto=1)),
+        ("phases", cfg(MaxCid=2, MaxPerPeer=2, MaxOpens=2, Phases=True, Eager=E1, EagerCmd=True)),
     ]
 
 
@@ -255,7 +264,10 @@ def classify(seg, idx, reason):
     head = json.loads(seg[0])
     if head.get("src") == "net":
         # real nodes: transport and scenario kind are part of the signature
-        return "net-%s-%s%s" % (head.get("transport", "tcp"), "open-timeout-" if head.get("kind") == "timeout" else "", slug(reason))
+        kind = head.get("kind", "mix")
+        return "net-%s-%s%s" % (head.get("transport", "tcp"),
+                                "open-timeout-" if kind == "timeout" else "open-burst-against-held-remote-" if kind.startswith("burst") else "",
+                                slug(reason))
     if reason.startswith("accepted open request never answered"):
         # why: did a connection try to hand the answer over and get refused? (refusals by a protocol the user
         # had dropped do not count: its requests are void)
@@ -289,8 +301,10 @@ def pipeline(ctx):
     build_s = cargo_build(ctx, ["svc"])
     nrand, rlen = (600, 70) if ctx.quick() else (5000, 90)
     # real nodes: tcp in full, websocket / quic a sample, plus the never-answered outbound open on each transport
-    plan = "tcp:mix:20,ws:mix:7,quic:mix:7,tcp:timeout:2,ws:timeout:2,quic:timeout:2" if ctx.quick() else \
-           "tcp:mix:200,ws:mix:70,quic:mix:70,tcp:timeout:8,ws:timeout:8,quic:timeout:8"
+    # burst: far more requests than the multiplexer has stream slots, against a remote that is held
+    plan = "tcp:mix:20,ws:mix:7,quic:mix:7,tcp:timeout:2,ws:timeout:2,quic:timeout:2,tcp:burst300:1,ws:burst300:1,quic:burst64:1" \
+        if ctx.quick() else \
+           "tcp:mix:200,ws:mix:70,quic:mix:70,tcp:timeout:8,ws:timeout:8,quic:timeout:8,tcp:burst300:3,ws:burst300:3,quic:burst64:3"
     nnet = plan
     summ, _ = harness(ctx, "svc", ["--behaviours", ctx.path("behs.jsonl"), "--random", nrand, "--len", rlen,
                                    "--seed", ctx.seed, "--out", ctx.path("trace.ndjson"),
@@ -302,7 +316,7 @@ def pipeline(ctx):
         if st["runs"] < max(1, st["wanted"] // 2):
             raise ToolError("real-network part %s: only %s of %s scenarios could be run (discarded: %s)" %
                             (item, st["runs"], st["wanted"], st["discard_reasons"]))
-        if item.endswith(":timeout") and st["held_opens"] == 0:
+        if (item.endswith(":timeout") or ":burst" in item) and st["held_opens"] == 0:
             raise ToolError("real-network part %s: no open request was accepted while the remote was held" % item)
     nseg, nev, rejects = validate_all(ctx, "SvcLifeTrace.tla", "SvcLifeTrace.cfg", lines, mode="prop")
     nseg2, nev2, rej2 = validate_all(ctx, "SvcLifeTrace.tla", "SvcLifeTrace.cfg", netlines, mode="prop", tag="n")
@@ -392,7 +406,7 @@ def evidence(mc, gstats, summ, lines, nseg, nev, drift):
 
 NEEDED_RESULTS = ["poll:est", "poll:closed", "poll:opened", "poll:failed", "open:ok", "open:err", "cmd:open", "cmd:none",
                   "cmd:force", "reply:ok", "inbound:ok", "inbound:nopermit", "drop:ok", "expire:ok", "fclose:ok", "close:ok",
-                  "reply:blocked", "inbound:blocked", "deliver:ok", "deliver:blocked", "dropproto:ok", "est:blocked"]
+                  "reply:blocked", "inbound:blocked", "deliver:ok", "deliver:blocked", "dropproto:ok", "est:blocked", "slot:ok"]
 
 
 def check(ctx):
@@ -442,6 +456,8 @@ NEG = [
     # try_send instead of send().await when handing a substream result to a protocol with a full inbox
     # report_connection_established leaves its send loop at the first failed send (a dropped protocol)
     ("est_break", cfg(MaxCid=1, MaxPerPeer=1, MaxInb=1, MaxFull=1, MaxDropProto=1, Bug="est_break"), "MonOK|NoPanicInScope", "not connected|panic"),
+    # the open timeout firing while a request still waits for its stream slot reports nothing
+    ("slot_silent", cfg(MaxCid=1, MaxPerPeer=1, MaxOpens=1, Phases=True, Bug="slot_silent"), "QuiesceOK", None),
     ("drop_on_full", cfg(MaxCid=1, MaxPerPeer=1, MaxOpens=1, MaxFull=1, Bug="drop_on_full"), "QuiesceOK", None),
 ]
 
